@@ -52,6 +52,22 @@ func parseConstraints(rangeStr string, ecosystem *Ecosystem) ([]*constraint, err
 		return nil, fmt.Errorf("no constraints found")
 	}
 
+	// Hex requirements are written with a space after the operator ("~> 2.1", ">= 1.0.0"):
+	// join an operator that stands alone with the version that follows it
+	var joined []string
+	for i := 0; i < len(parts); i++ {
+		switch parts[i] {
+		case ">=", "<=", ">", "<", "=", "~>":
+			if i+1 < len(parts) {
+				joined = append(joined, parts[i]+parts[i+1])
+				i++
+				continue
+			}
+		}
+		joined = append(joined, parts[i])
+	}
+	parts = joined
+
 	var constraints []*constraint
 
 	for _, part := range parts {
